@@ -1,8 +1,760 @@
-//! C15 — not implemented yet
-use vcore::{Args, Check};
+//! C15 — an aggregator crash at any point leaves a verifiable store and resumable rounds.
+//!
+//! Fault enumeration over generated histories on the real aggregator (same system as C14, see sut.rs / run.rs).
+//! The repository carries named crash points (`mithril_aggregator::verif_hooks`, compiled only with
+//! `--cfg mithril_verif`) before/after every persistence step of certificate sealing, artifact production and the
+//! buffered-signature hand-over. An armed crash point parks the running future forever; the harness then drops
+//! the aggregator where it stands, shuts the tokio runtime it lived on down (every spawned task dies with it: no
+//! error handling, no shutdown code runs), and boots a new aggregator on the same directories on a fresh runtime.
+//!
+//! A crash case = (history, list of 1..2 stops). Every history is first run crash-free (the *twin*), which also
+//! counts how often every crash point executes; the enumerated section then stops the same history at EVERY
+//! (crash point, occurrence) seen in the twin, plus "two stops in a row" variants; the generated section samples
+//! (history, point, occurrence, second stop, ticks after restart) with shrinking.
+//!
+//! Oracle (after the restart, after k further cycles, and at the end of the history + a healthy epilogue):
+//!   O1 every stored certificate verifies with its whole chain (fresh mithril_common verifier; at the end also the
+//!      mithril-client verifier on the HTTP view);
+//!   O2 no signed entity (type + beacon) has two artifacts;
+//!   O3 every artifact's certificate exists and certifies exactly that signed entity;
+//!   O4 progress, as a differential with the twin: signers sign every entity once (an acknowledged submission is
+//!      never repeated), the environment of both runs is the same history, the crashed run additionally gets a
+//!      recovery round after each restart; whatever entity of the FINAL time point the twin certified / produced
+//!      an artifact for must be certified / have an artifact in the crashed run too, and the aggregator must not
+//!      end blocked when the twin does not.
+
+use std::collections::{BTreeMap, BTreeSet, VecDeque};
+use std::sync::{Arc, Mutex};
+
+use proptest::prelude::*;
+use serde::{Deserialize, Serialize};
+use vcore::{Args, Check, Report};
+
+use mithril_aggregator::verif_hooks as hooks;
+use mithril_common::certificate_chain::{CertificateVerifier, MithrilCertificateVerifier};
+use mithril_common::entities::Certificate;
+use mithril_common::messages::CertificateMessage;
+
+use crate::run::{Flavour, IdxList, Inlet, Label, MapRequester, MapRetriever, Op, RegEpoch, Run, RunOpts, SignOp, Source, Target, tkey};
+use crate::sut::{SutConfig, case_runtime};
+
+pub const POINTS: &[&str] = &[
+    "certificate:before-insert",
+    "certificate:after-insert",
+    "certificate:after-open-message-update",
+    "artifact:before-compute",
+    "artifact:after-compute",
+    "artifact:after-store",
+    "buffer:after-open-message-created",
+    "buffer:after-signature-handed-over",
+    "buffer:before-remove",
+    "buffer:after-remove",
+];
+
+#[derive(Clone, Debug, PartialEq, Serialize, Deserialize)]
+pub enum Occ {
+    /// the n-th execution of the point (counted from 1 since the process started)
+    Nth(u32),
+    /// generated: mapped monotonically onto 1..=count of the crash-free twin
+    Raw(u16),
+}
+
+#[derive(Clone, Debug, Serialize, Deserialize)]
+pub struct Stop {
+    pub point: u8,
+    pub occ: Occ,
+    /// healthy cycles right after the restart, before the store is looked at again
+    pub ticks_after: u8,
+}
+
+#[derive(Clone, Debug, Serialize, Deserialize)]
+pub struct Case {
+    pub cfg: SutConfig,
+    pub ops: Vec<Op>,
+    pub stops: Vec<Stop>,
+}
+
+// ------------------------------------------------------------------------------------------------ histories
+
+fn sign(mask: u16, target: Target, inlet: Inlet) -> Op {
+    Op::Sign(SignOp { mask, target, flavour: Flavour::Valid, inlet, label: Label::Own, source: Source::Own, idx: IdxList::Matching })
+}
+
+fn cfg_strategy() -> impl Strategy<Value = SutConfig> {
+    (
+        prop_oneof![2 => Just((5u64, 100u64, 95u8)), 2 => Just((30u64, 100u64, 65u8))],
+        3u8..=5,
+        prop_oneof![3 => Just(true), 1 => Just(false)],
+        prop_oneof![3 => Just(false), 1 => Just(true)],
+        prop_oneof![2 => Just(false), 1 => Just(true)],
+    )
+        .prop_map(|((k, m, phi_pct), n_signers, cardano_database, cardano_transactions, cardano_stake_distribution)| SutConfig {
+            k,
+            m,
+            phi_pct,
+            n_signers,
+            cardano_database,
+            cardano_transactions,
+            cardano_stake_distribution,
+        })
+}
+
+/// What happens during one Cardano epoch: registration for the epoch after next, signing rounds, new immutable
+/// files / blocks (sometimes with signatures that arrive before the aggregator opened the message: buffered path),
+/// a little noise (partial rounds, clean restarts, an expiry), then the epoch change (again with early signatures).
+fn block_strategy(n: u8) -> impl Strategy<Value = Vec<Op>> {
+    let full = (1u16 << n) - 1;
+    let mask = move || prop_oneof![4 => Just(full), 1 => 1u16..=full];
+    let inlet = || prop_oneof![3 => Just(Inlet::Http), 1 => Just(Inlet::Dmq)];
+    let round = (mask(), inlet(), 1u8..=2).prop_map(|(m, i, t)| vec![sign(m, Target::Current(0), i), Op::Tick(t)]);
+    let early = move || prop_oneof![2 => Just(None), 3 => (mask(), any::<u16>(), inlet()).prop_map(|(m, i, inl)| Some(sign(m, Target::NotYetOpen(i), inl)))];
+    let event = (prop_oneof![3 => Just(Op::ImmutableUp), 2 => (20u8..=70).prop_map(Op::BlocksUp)], early(), prop::collection::vec(round.clone(), 1..=2)).prop_map(|(ev, early, rounds)| {
+        let mut v = vec![ev];
+        v.extend(early);
+        v.push(Op::Tick(2));
+        v.extend(rounds.into_iter().flatten());
+        v
+    });
+    let noise = prop_oneof![
+        4 => Just(None),
+        1 => Just(Some(Op::Restart)),
+        1 => any::<u16>().prop_map(|i| Some(Op::Expire(i))),
+        1 => Just(Some(Op::Tick(1))),
+    ];
+    (
+        prop_oneof![10 => Just(Some(full)), 3 => (1u16..=full).prop_map(Some), 1 => Just(None)],
+        prop::collection::vec(round, 1..=3),
+        prop::collection::vec(event, 0..=2),
+        noise,
+        any::<u16>(),
+        early(),
+    )
+        .prop_map(move |(reg, rounds, events, noise, at, early)| {
+            let mut v: Vec<Op> = vec![];
+            if let Some(m) = reg {
+                v.push(Op::Register { mask: m, keygen: 0, when: RegEpoch::Current });
+            }
+            v.extend(rounds.into_iter().flatten());
+            for e in events {
+                v.extend(e);
+            }
+            if let Some(nz) = noise {
+                let pos = vcore::pick_index(at, v.len() + 1);
+                v.insert(pos, nz);
+            }
+            // signatures that arrive early: after the aggregator entered the epoch (two cycles), before it opened the message
+            v.push(Op::EpochUp(1));
+            v.push(Op::Tick(2));
+            v.extend(early);
+            v.push(Op::Tick(2));
+            v
+        })
+}
+
+fn history_strategy() -> impl Strategy<Value = (SutConfig, Vec<Op>)> {
+    cfg_strategy().prop_flat_map(|cfg| {
+        let n = cfg.n_signers;
+        let full = (1u16 << n) - 1;
+        (Just(cfg), prop::collection::vec(block_strategy(n), 2..=3)).prop_map(move |(cfg, blocks)| {
+            let mut ops = vec![Op::Tick(1), Op::Register { mask: full, keygen: 0, when: RegEpoch::Current }, Op::EpochUp(1), Op::Tick(3)];
+            for b in blocks {
+                ops.extend(b);
+            }
+            (cfg, ops)
+        })
+    })
+}
+
+fn stop_strategy() -> impl Strategy<Value = Stop> {
+    (
+        0u8..POINTS.len() as u8,
+        any::<u16>(),
+        prop_oneof![Just(0u8), Just(1u8), Just(3u8)],
+    )
+        .prop_map(|(point, raw, ticks_after)| Stop { point, occ: Occ::Raw(raw), ticks_after })
+}
+
+pub fn case_strategy() -> impl Strategy<Value = Case> {
+    (
+        history_strategy(),
+        stop_strategy(),
+        prop_oneof![
+            2 => Just(None),
+            1 => (0u8..POINTS.len() as u8, 1u32..=2, prop_oneof![Just(0u8), Just(1u8)]).prop_map(|(point, nth, ticks_after)| Some(Stop { point, occ: Occ::Nth(nth), ticks_after })),
+        ],
+    )
+        .prop_map(|((cfg, ops), first, second)| {
+            let mut stops = vec![first];
+            stops.extend(second);
+            Case { cfg, ops, stops }
+        })
+}
+
+/// scripted histories (a floor for the classes the enumeration must reach: every crash point executes)
+fn scripted() -> Vec<(SutConfig, Vec<Op>)> {
+    let mut v = vec![];
+    for (n, k, m, phi) in [(3u8, 5u64, 100u64, 95u8), (4, 30, 100, 65)] {
+        let cfg = SutConfig { k, m, phi_pct: phi, n_signers: n, cardano_database: true, cardano_transactions: n == 4, cardano_stake_distribution: n == 3 };
+        let full = (1u16 << n) - 1;
+        let reg = Op::Register { mask: full, keygen: 0, when: RegEpoch::Current };
+        let all = || sign(full, Target::Current(0), Inlet::Http);
+        let early = |i: u16| sign(full, Target::NotYetOpen(i), Inlet::Http);
+        let mut ops = vec![Op::Tick(1), reg.clone(), Op::EpochUp(1), Op::Tick(3)];
+        for e in 0..2u16 {
+            ops.extend([reg.clone(), all(), Op::Tick(2), all(), Op::Tick(2), all(), Op::Tick(2)]);
+            ops.extend([Op::ImmutableUp, early(e), Op::Tick(2), all(), Op::Tick(2), all(), Op::Tick(2)]);
+            ops.extend([Op::BlocksUp(45), Op::Tick(2), all(), Op::Tick(2)]);
+            ops.extend([Op::EpochUp(1), Op::Tick(2), early(0), Op::Tick(2)]);
+        }
+        v.push((cfg, ops));
+    }
+    v
+}
+
+/// the healthy continuation every run ends with: three epochs in which everybody registers and signs whatever the
+/// aggregator asks for, then a few more rounds without new beacons
+fn epilogue(cfg: &SutConfig) -> Vec<Op> {
+    let n = cfg.n_signers;
+    let full = (1u16 << n) - 1;
+    let all = || sign(full, Target::Current(0), Inlet::Http);
+    let d = cfg.discriminants().len();
+    let mut v = vec![];
+    for epoch in 0..3 {
+        v.push(Op::Register { mask: full, keygen: 0, when: RegEpoch::Current });
+        for _ in 0..=d {
+            v.extend([all(), Op::Tick(2)]);
+        }
+        if epoch == 2 {
+            v.extend([Op::ImmutableUp, Op::BlocksUp(40), Op::Tick(2)]);
+            for _ in 0..d {
+                v.extend([all(), Op::Tick(2)]);
+            }
+        }
+        v.extend([Op::EpochUp(1), Op::Tick(3)]);
+    }
+    for _ in 0..=d + 1 {
+        v.extend([all(), Op::Tick(2)]);
+    }
+    v
+}
+
+fn recovery(cfg: &SutConfig) -> Vec<Op> {
+    let n = cfg.n_signers;
+    let full = (1u16 << n) - 1;
+    let d = cfg.discriminants().len();
+    let mut v = vec![];
+    for _ in 0..=d {
+        v.extend([sign(full, Target::Current(0), Inlet::Http), Op::Tick(2)]);
+    }
+    v
+}
+
+// ------------------------------------------------------------------------------------------------ execution
+
+#[derive(Clone, Debug, Default)]
+pub struct Outcome {
+    /// executions of every crash point during the history part (before the epilogue), per process lifetime 0
+    pub seen_history: BTreeMap<String, u32>,
+    pub seen_total: BTreeMap<String, u32>,
+    pub fired: Vec<(String, u32, usize)>,
+    pub certified: BTreeSet<String>,
+    pub artifacts: BTreeSet<String>,
+    pub final_types: Vec<String>,
+    pub final_state: String,
+    pub certificates: usize,
+    pub recertified: usize,
+    pub violation: Option<(String, String)>,
+    pub labels: BTreeSet<String>,
+    pub stops_not_reached: usize,
+}
+
+/// O1..O3 on what is stored right now. `client` adds the mithril-client verifier on the HTTP view (O1).
+async fn check_store(run: &mut Run, tag: &str, client: bool) -> Option<(String, String)> {
+    let certs: Vec<Certificate> = match run.node().certificates().await {
+        Ok(c) => c,
+        Err(e) => return Some((format!("store-unreadable:{tag}"), format!("certificates cannot be listed: {e:?}"))),
+    };
+    let stored: BTreeMap<String, Certificate> = certs.iter().map(|c| (c.hash.clone(), c.clone())).collect();
+    let genesis_verifier = Arc::new(run.genesis_signer.create_verifier());
+    let verifier = MithrilCertificateVerifier::new(run.world.logger.clone(), Arc::new(MapRetriever(stored.clone())), genesis_verifier);
+    // "verifies with its whole chain" = verify_certificate_chain, which is the iteration of verify_certificate along
+    // the previous-hash links: every stored certificate is verified once against its parent (linear instead of
+    // quadratic work), then every certificate's links are followed to a genesis certificate
+    for c in &certs {
+        if let Err(e) = verifier.verify_certificate(c).await {
+            let what = format!("certificate {} ({}, epoch {}) does not verify: {e:?}", c.hash, if c.is_genesis() { "genesis".to_string() } else { tkey(&c.signed_entity_type()) }, c.epoch);
+            return Some((format!("O1-chain-does-not-verify:{tag}"), what.chars().take(700).collect()));
+        }
+    }
+    for c in &certs {
+        let mut at = c;
+        let mut steps = 0;
+        while !at.is_genesis() {
+            steps += 1;
+            match stored.get(&at.previous_hash) {
+                Some(p) if steps <= certs.len() => at = p,
+                _ => {
+                    return Some((format!("O1-chain-does-not-verify:{tag}"), format!("the chain of certificate {} does not reach a genesis certificate (stops at {})", c.hash, at.hash)));
+                }
+            }
+        }
+    }
+    if client {
+        let mut view = BTreeMap::new();
+        for h in stored.keys() {
+            let resp = warp::test::request().method("GET").path(&format!("/aggregator/certificate/{h}")).reply(&run.node().routes).await;
+            if resp.status().as_u16() == 200 {
+                if let Ok(m) = serde_json::from_slice::<CertificateMessage>(resp.body()) {
+                    view.insert(h.clone(), m);
+                }
+            }
+        }
+        let cv = mithril_client::certificate_client::MithrilCertificateVerifier::new(
+            Arc::new(MapRequester(view.clone())),
+            &run.world.configuration.genesis_verification_key,
+            mithril_client::feedback::FeedbackSender::new(&[]),
+            None,
+            run.world.logger.clone(),
+        );
+        match cv {
+            Ok(cv) => {
+                use mithril_client::certificate_client::CertificateVerifier as _;
+                // the public client view: the newest certificates (their chains cover the older ones) and every
+                // certificate of an entity that was certified more than once
+                let mut types: BTreeMap<String, u32> = BTreeMap::new();
+                for c in certs.iter().filter(|c| !c.is_genesis()) {
+                    *types.entry(tkey(&c.signed_entity_type())).or_insert(0) += 1;
+                }
+                let newest: BTreeSet<String> = certs.iter().rev().take(3).map(|c| c.hash.clone()).collect();
+                let wanted: Vec<String> = certs
+                    .iter()
+                    .filter(|c| newest.contains(&c.hash) || (!c.is_genesis() && types.get(&tkey(&c.signed_entity_type())).copied().unwrap_or(0) > 1))
+                    .map(|c| c.hash.clone())
+                    .collect();
+                for h in &wanted {
+                    let Some(me) = view.get(h) else {
+                        return Some((format!("O1-certificate-not-served:{tag}"), format!("certificate {h} is stored but not served over HTTP")));
+                    };
+                    if let Err(e) = cv.verify_chain(me).await {
+                        return Some((format!("O1-client-verifier-rejects:{tag}"), format!("certificate {h}: mithril-client verifier: {e:?}").chars().take(700).collect()));
+                    }
+                }
+            }
+            Err(e) => return Some((format!("O1-client-verifier-rejects:{tag}"), format!("cannot build the client verifier: {e:?}"))),
+        }
+    }
+    // artifacts
+    let mut by_entity: BTreeMap<String, Vec<String>> = BTreeMap::new();
+    for d in run.world.cfg.discriminants() {
+        let records = match run.node().signed_entity_storer.get_last_signed_entities_by_type(&d, 100_000).await {
+            Ok(r) => r,
+            Err(e) => return Some((format!("store-unreadable:{tag}"), format!("signed entities of {d:?} cannot be listed: {e:?}"))),
+        };
+        for r in records {
+            by_entity.entry(tkey(&r.signed_entity_type)).or_default().push(r.signed_entity_id.clone());
+            match stored.get(&r.certificate_id) {
+                None => {
+                    return Some((
+                        format!("O3-artifact-without-certificate:{tag}"),
+                        format!("artifact {} of {:?} references certificate {} which is not stored", r.signed_entity_id, r.signed_entity_type, r.certificate_id),
+                    ));
+                }
+                Some(c) => {
+                    if c.is_genesis() || c.signed_entity_type() != r.signed_entity_type {
+                        return Some((
+                            format!("O3-artifact-certificate-mismatch:{tag}"),
+                            format!("artifact {} of {:?} references certificate {} which certifies {:?}", r.signed_entity_id, r.signed_entity_type, c.hash, c.signed_entity_type()),
+                        ));
+                    }
+                }
+            }
+        }
+    }
+    for (t, ids) in by_entity {
+        if ids.len() > 1 {
+            return Some((format!("O2-two-artifacts:{tag}"), format!("{t} has {} artifacts: {ids:?}", ids.len())));
+        }
+    }
+    None
+}
+
+async fn snapshot(run: &mut Run, out: &mut Outcome) {
+    let certs = run.node().certificates().await.unwrap_or_default();
+    let mut seen_types = BTreeSet::new();
+    out.recertified = 0;
+    for c in certs.iter().filter(|c| !c.is_genesis()) {
+        if !seen_types.insert(tkey(&c.signed_entity_type())) {
+            out.recertified += 1;
+        }
+    }
+    out.certificates = certs.iter().filter(|c| !c.is_genesis()).count();
+    out.certified = seen_types;
+    out.artifacts.clear();
+    for d in run.world.cfg.discriminants() {
+        if let Ok(records) = run.node().signed_entity_storer.get_last_signed_entities_by_type(&d, 100_000).await {
+            for r in records {
+                out.artifacts.insert(tkey(&r.signed_entity_type));
+            }
+        }
+    }
+    let tp = run.world.time_point().await;
+    out.final_types = run.types_at(&tp).iter().map(tkey).collect();
+    out.final_state = run.node().state().to_string();
+}
+
+fn opts() -> RunOpts {
+    RunOpts { certificates: false, rows: false, client_verifier: false, signers_by_true_key: false, expect_certificate_on_honest_quorum: false, sign_once: true }
+}
+
+/// resolved stop: (point name, occurrence counted since the process started, ticks after restart)
+type Resolved = (String, u32, u8);
+
+enum Item {
+    Op(Op),
+    /// end of the history part (the epilogue follows)
+    HistoryEnd,
+    /// look at the store (O1..O3) — placed after a restart and after the healing ticks
+    Check(&'static str, String),
+}
+
+pub fn execute(cfg: &SutConfig, ops: &[Op], stops: &[Resolved]) -> Outcome {
+    let mut out = Outcome::default();
+    let mut queue: VecDeque<Item> = ops.iter().cloned().map(Item::Op).collect();
+    queue.push_back(Item::HistoryEnd);
+    queue.extend(epilogue(cfg).into_iter().map(Item::Op));
+
+    hooks::reset();
+    let mut rt = case_runtime();
+    let mut run = rt.block_on(Run::boot(cfg, "c15", opts()));
+    let mut next_stop = 0usize;
+    let arm = |next_stop: usize| {
+        if let Some((name, occ, _)) = stops.get(next_stop) {
+            hooks::arm(name, *occ);
+        }
+    };
+    arm(next_stop);
+    let mut lifetime_seen: BTreeMap<String, u32> = BTreeMap::new();
+    let mut in_history = true;
+    let mut op_no = 0usize;
+
+    while let Some(item) = queue.pop_front() {
+        match item {
+            Item::HistoryEnd => {
+                in_history = false;
+                if out.fired.is_empty() {
+                    out.seen_history = hooks::seen();
+                }
+            }
+            Item::Check(phase, point) => {
+                let v = rt.block_on(check_store(&mut run, &format!("{phase}:{point}"), false));
+                if v.is_some() {
+                    out.violation = v;
+                    break;
+                }
+            }
+            Item::Op(op) => {
+                op_no += 1;
+                let crashed = rt.block_on(async {
+                    tokio::select! {
+                        biased;
+                        _ = run.apply(&op) => false,
+                        _ = async { loop { if hooks::fired().is_some() { break; } tokio::time::sleep(std::time::Duration::from_millis(1)).await; } } => true,
+                    }
+                });
+                // a crash point that fired at the very end of the operation (apply completed in the same poll)
+                let crashed = crashed || hooks::fired().is_some();
+                if let Some((k, w)) = run.violation.clone() {
+                    out.violation = Some((k, w));
+                    break;
+                }
+                if crashed {
+                    let (name, occ) = hooks::fired().expect("fired");
+                    out.fired.push((name.clone(), occ, op_no));
+                    out.labels.insert(format!("fired:{name}"));
+                    out.labels.insert(if in_history { "fired-in:history".to_string() } else { "fired-in:epilogue".to_string() });
+                    let ticks_after = stops.get(next_stop).map(|s| s.2).unwrap_or(0);
+                    for (k, v) in hooks::seen() {
+                        *lifetime_seen.entry(k).or_insert(0) += v;
+                    }
+                    // the process dies where it stands
+                    run.kill();
+                    rt.shutdown_background();
+                    rt = case_runtime();
+                    hooks::reset();
+                    next_stop += 1;
+                    arm(next_stop);
+                    let booted = rt.block_on(async {
+                        match run.world.start().await {
+                            Ok(n) => {
+                                run.node = Some(n);
+                                Ok(())
+                            }
+                            Err(e) => Err(format!("{e:?}")),
+                        }
+                    });
+                    if let Err(e) = booted {
+                        out.violation = Some((format!("restart-fails:{name}"), format!("the aggregator does not start on the store left by a stop at {name}#{occ}: {e}").chars().take(600).collect()));
+                        break;
+                    }
+                    run.obs.restarts += 1;
+                    // what the restart finds; then k healthy cycles; then a recovery round; then the history goes on
+                    let mut front: Vec<Item> = vec![Item::Check("after-restart", name.clone())];
+                    if ticks_after > 0 {
+                        front.push(Item::Op(Op::Tick(ticks_after)));
+                        front.push(Item::Check("after-ticks", name.clone()));
+                    }
+                    front.extend(recovery(cfg).into_iter().map(Item::Op));
+                    front.push(Item::Check("after-recovery", name.clone()));
+                    for it in front.into_iter().rev() {
+                        queue.push_front(it);
+                    }
+                }
+            }
+        }
+    }
+    for (k, v) in hooks::seen() {
+        *lifetime_seen.entry(k).or_insert(0) += v;
+    }
+    out.seen_total = lifetime_seen;
+    out.stops_not_reached = stops.len().saturating_sub(out.fired.len());
+    hooks::reset();
+    if out.violation.is_none() {
+        let tag = out.fired.last().map(|f| f.0.clone()).unwrap_or_else(|| "no-crash".into());
+        let v = rt.block_on(check_store(&mut run, &format!("end:{tag}"), true));
+        out.violation = v;
+    }
+    if run.node.is_some() {
+        rt.block_on(snapshot(&mut run, &mut out));
+    }
+    for l in run.labels.iter() {
+        if l.starts_with("tick-err") || l.starts_with("sign:") && l.contains("buffered") || l == "sign:already-acknowledged" || l == "artifact-task-not-settled" {
+            out.labels.insert(l.clone());
+        }
+    }
+    for s in run.obs.states.iter() {
+        out.labels.insert(format!("state:{s}"));
+    }
+    rt.block_on(run.shutdown());
+    rt.shutdown_background();
+    out
+}
+
+// ------------------------------------------------------------------------------------------------ twins
+
+fn history_key(cfg: &SutConfig, ops: &[Op]) -> String {
+    serde_json::to_string(&(cfg, ops)).unwrap_or_default()
+}
+
+static TWINS: Mutex<BTreeMap<String, Arc<Outcome>>> = Mutex::new(BTreeMap::new());
+
+fn twin(cfg: &SutConfig, ops: &[Op]) -> Arc<Outcome> {
+    let key = history_key(cfg, ops);
+    if let Some(t) = TWINS.lock().unwrap().get(&key) {
+        return t.clone();
+    }
+    let t = Arc::new(execute(cfg, ops, &[]));
+    let mut g = TWINS.lock().unwrap();
+    if g.len() > 4096 {
+        g.clear();
+    }
+    g.insert(key, t.clone());
+    t
+}
+
+// ------------------------------------------------------------------------------------------------ the case
+
+pub fn run_case(c: &Case, tolerated: &[String]) -> Report {
+    let mut rep = Report::new();
+    let tw = twin(&c.cfg, &c.ops);
+    if let Some((k, w)) = &tw.violation {
+        // no crash involved: the store of an undisturbed run violates O1..O3 (that is C14's territory, but a
+        // violation all the same)
+        rep.label("twin-violation");
+        rep.violation(format!("no-crash:{k}"), format!("crash-free run: {w}"));
+        return rep;
+    }
+    // resolve the stops
+    let mut stops: Vec<Resolved> = vec![];
+    for (i, s) in c.stops.iter().enumerate() {
+        let name = POINTS[s.point as usize % POINTS.len()].to_string();
+        let occ = match &s.occ {
+            Occ::Nth(n) => (*n).max(1),
+            Occ::Raw(raw) => {
+                let count = if i == 0 { tw.seen_history.get(&name).copied().unwrap_or(0) } else { 2 };
+                if count == 0 {
+                    rep.label(format!("point-not-executed-by-history:{name}"));
+                    return rep;
+                }
+                1 + vcore::pick_index(*raw, count as usize) as u32
+            }
+        };
+        stops.push((name, occ, s.ticks_after));
+    }
+    let out = execute(&c.cfg, &c.ops, &stops);
+    for l in &out.labels {
+        rep.label(l.clone());
+    }
+    if out.fired.is_empty() {
+        rep.label("no-stop-fired");
+        return rep;
+    }
+    rep.label(format!("stops:{}", out.fired.len()));
+    if out.fired.len() >= 2 {
+        rep.label("two-stops");
+        rep.label(format!("second:{}", out.fired[1].0));
+    }
+    if out.recertified > 0 {
+        rep.label("entity-certified-again-after-stop");
+    }
+    for (_, _, ticks) in &stops {
+        rep.label(format!("ticks-after-restart:{ticks}"));
+    }
+    let occ_class = |occ: u32| match occ {
+        1 => "first",
+        2..=3 => "early",
+        _ => "late",
+    };
+    let shape = out.fired.iter().map(|(n, o, _)| format!("{n}#{}", occ_class(*o))).collect::<Vec<_>>().join("+");
+    let kinds: Vec<String> = c.ops.iter().map(|o| o.kind()).collect();
+    let history_hash = kinds.join(" ").bytes().fold(0u64, |a, b| vcore::mix(a, b as u64));
+    rep.nontrivial(format!("{shape}|{}|{}|{history_hash:x}", c.cfg.n_signers, c.cfg.discriminants().len()));
+
+    let first = out.fired[0].0.clone();
+    let mut verdict = out.violation.clone();
+    if verdict.is_none() {
+        // O4: progress relative to the twin, on the entities of the final time point
+        if tw.final_state != "blocked-epoch-gap" && out.final_state == "blocked-epoch-gap" {
+            verdict = Some((format!("O4-blocked-after-stop:{first}"), format!("the crash-free run ends in state {}, the run stopped at {:?} ends blocked by an epoch gap (manual repair needed)", tw.final_state, out.fired)));
+        }
+    }
+    if verdict.is_none() {
+        let mut judged = 0;
+        for t in &tw.final_types {
+            if tw.certified.contains(t) {
+                judged += 1;
+                if !out.certified.contains(t) {
+                    verdict = Some((format!("O4-no-progress:{first}"), format!("{t} (an entity of the final time point) is certified in the crash-free run but not in the run stopped at {:?}; final state {}", out.fired, out.final_state)));
+                    break;
+                }
+            }
+            if tw.artifacts.contains(t) && !out.artifacts.contains(t) {
+                verdict = Some((format!("O4-no-artifact:{first}"), format!("{t} (an entity of the final time point) has an artifact in the crash-free run but not in the run stopped at {:?}", out.fired)));
+                break;
+            }
+        }
+        rep.label(if judged > 0 { "progress-judged" } else { "progress-not-judged:twin-did-not-certify" });
+    }
+    if let Some((k, w)) = verdict {
+        let tolerated_hit = tolerated.iter().any(|t| match t.strip_suffix('*') {
+            Some(p) => k.starts_with(p),
+            None => *t == k,
+        });
+        if tolerated_hit {
+            rep.excluded_known(k);
+        } else if crate::run::sticky_key(&k) {
+            rep.violation(k, format!("{w}; stops={:?}", stops));
+        }
+    }
+    rep
+}
+
+/// the enumeration runs every case once and does not shrink: the sticky key (a shrinking aid of the generated
+/// sections, per worker thread) is cleared so that every case reports its own verdict
+fn run_case_enum(c: &Case, tolerated: &[String]) -> Report {
+    crate::run::clear_sticky();
+    let mut r = run_case(c, tolerated);
+    r.label("enumerated");
+    crate::run::clear_sticky();
+    r
+}
+
+// ------------------------------------------------------------------------------------------------ check
+
+pub const KNOWN_CANDIDATES: &[&str] = &[];
 
 pub fn run(args: &Args) -> i32 {
-    let check = Check::new("C15", "exploration", args);
-    check.inconclusive("check not implemented yet".into());
+    let mut check = Check::new("C15", "fault_enumeration", args);
+    check
+        .rule(
+            "crash case = (history, 1..2 stops). History = deployment start + 2..3 epoch blocks (registration all/some/nobody, 1..3 signing rounds over HTTP or the message queue, \
+             new immutable files / blocks with or without signatures arriving before the open message exists (buffered path), clean restart / expiry / extra tick as noise, epoch change) \
+             followed by a fixed healthy epilogue of three epochs. Section `enumeration`: for scripted and generated histories EVERY (crash point, occurrence) executed by the crash-free \
+             twin during the history, with 0 healthy cycles after the restart, plus for every crash point a second stop at the first execution of every certificate/artifact point after the restart. \
+             Section `generated`: sampled (history, point, occurrence, cycles after restart in {0,1,3}, optional second stop). \
+             Non-trivial = the armed crash point actually fired; distinct by (points fired with occurrence class first/early/late, number of signers, number of signed entity types, history shape)",
+        )
+        .assume("a stop = the process dies at a named crash point: the future is parked, the aggregator dropped, its tokio runtime shut down (all spawned tasks die), a new aggregator boots on the same directories; sqlite statements already executed are durable, nothing else survives")
+        .assume("signers sign every signed entity once: an acknowledged (201/202) submission is never repeated; after each restart the registered signers that have not yet signed the open messages do so (recovery round)")
+        .assume("progress (O4) is judged relative to the crash-free twin of the same history, on the entities of the final time point only; chain / immutable / block inputs come from the repository's test doubles")
+        .shrink_iters(60);
+    for p in POINTS {
+        check.require_label(&format!("fired:{p}"));
+    }
+    check.require_label("two-stops").require_label("progress-judged").require_label("fired-in:history");
+    crate::model::warm_up(6);
+    let t = check.tier;
+    let tolerated = crate::run::tolerated_keys(&check, args, KNOWN_CANDIDATES);
+    if let Ok(which) = std::env::var("VERIF_C15_TWIN") {
+        // development aid (never set by the registered commands): run one scripted history crash-free and print
+        let (cfg, ops) = scripted()[which.parse::<usize>().unwrap_or(0) % 2].clone();
+        let out = execute(&cfg, &ops, &[]);
+        eprintln!("TWIN seen_history={:?}\n certified={:?}\n artifacts={:?}\n final_types={:?} state={} violation={:?}", out.seen_history, out.certified, out.artifacts, out.final_types, out.final_state, out.violation);
+        return 2;
+    }
+
+    // ---- enumeration
+    // quick: one scripted and one generated history are enumerated completely; thorough: both scripted and 60 generated
+    let mut histories = scripted();
+    if t == vcore::Tier::Quick {
+        histories.truncate(1);
+    }
+    let n_generated = t.pick(1, 60) as u64;
+    if !check.is_replay() {
+        for i in 0..n_generated {
+            histories.push(vcore::sample_one(&history_strategy(), vcore::mix(check.seed, 1000 + i)));
+        }
+    }
+    let mut cases: Vec<Case> = vec![];
+    if !check.is_replay() {
+        // twins in parallel
+        let idx = std::sync::atomic::AtomicUsize::new(0);
+        std::thread::scope(|s| {
+            for _ in 0..check.threads.max(1) {
+                s.spawn(|| {
+                    loop {
+                        let i = idx.fetch_add(1, std::sync::atomic::Ordering::Relaxed);
+                        if i >= histories.len() {
+                            break;
+                        }
+                        let (cfg, ops) = &histories[i];
+                        let _ = twin(cfg, ops);
+                    }
+                });
+            }
+        });
+        for (cfg, ops) in &histories {
+            let tw = twin(cfg, ops);
+            for (pi, p) in POINTS.iter().enumerate() {
+                let count = tw.seen_history.get(*p).copied().unwrap_or(0);
+                for occ in 1..=count {
+                    cases.push(Case { cfg: cfg.clone(), ops: ops.clone(), stops: vec![Stop { point: pi as u8, occ: Occ::Nth(occ), ticks_after: 0 }] });
+                }
+                // two stops in a row: the middle occurrence, then the first execution of each sealing/artifact point
+                if count > 0 {
+                    let mid = (count + 1) / 2;
+                    let seconds: Vec<u8> = if t == vcore::Tier::Quick { vec![1 + (pi as u8) % 2, 3 + (pi as u8) % 3] } else { (0..6u8).collect() };
+                    for second in seconds {
+                        cases.push(Case {
+                            cfg: cfg.clone(),
+                            ops: ops.clone(),
+                            stops: vec![Stop { point: pi as u8, occ: Occ::Nth(mid), ticks_after: 0 }, Stop { point: second, occ: Occ::Nth(1), ticks_after: 1 }],
+                        });
+                    }
+                }
+            }
+        }
+    }
+    check.enumerate("enumeration", cases.into_iter(), true, |c| run_case_enum(c, &tolerated));
+    check.section("generated", case_strategy, t.pick(128, 6000), |c| run_case(c, &tolerated));
     check.finish()
 }
